@@ -18,6 +18,7 @@ type interpObs struct {
 	Blocks  string
 	Binding string
 	Parts   string
+	Altered string `json:",omitempty"`
 }
 
 // interp: Parse (+ parts) then Execute, with the given options.
@@ -28,6 +29,7 @@ func interpret(src []byte, name string, disasm, trace, stats bool) (o interpObs)
 	var err error
 	var res []bcl.Block
 	var b bcl.Binding
+	src = append([]byte(nil), src...) // a private buffer, overwritten below
 	o.Class, o.Err = guard(30*time.Second, func() {
 		p, err = bcl.Parse(src, name, opts...)
 		if err != nil {
@@ -41,13 +43,68 @@ func interpret(src []byte, name string, disasm, trace, stats bool) (o interpObs)
 	}
 	o.Out, o.Log = hx(out.Bytes()), hx(log.Bytes())
 	o.Blocks, o.Binding = showBlocks(res), showBinding(b)
+	if p != nil && o.Parts != "" {
+		// executing a Prog does not alter it
+		if after := showParts(p); after != o.Parts {
+			o.Altered = "the Prog differs after Execute"
+		}
+		// the outcome is a function of the input BYTES: it does not change when the caller reuses its buffer
+		for i := range src {
+			src[i] = 'Z'
+		}
+		switch {
+		case showParts(p) != o.Parts && o.Altered == "":
+			o.Altered = "the Prog changes when the caller's input buffer is overwritten"
+		case showBlocks(res) != o.Blocks:
+			o.Altered = "the returned blocks change when the caller's input buffer is overwritten"
+		case showBinding(b) != o.Binding:
+			o.Altered = "the returned binding changes when the caller's input buffer is overwritten"
+		}
+	}
 	return
 }
 
+// execSeq: Parse once, then Execute the same Prog once per option string of seq; each step reports what that
+// execution appended to the output writer and what it returned.
+func execSeq(src []byte, name string, seq []string) []M {
+	var out, log bytes.Buffer
+	var steps []M
+	p, err := bcl.Parse(append([]byte(nil), src...), name, bcl.OptOutput(&out), bcl.OptLogger(&log))
+	if err != nil {
+		return nil
+	}
+	for _, opts := range seq {
+		has := func(ch byte) bool { return bytes.IndexByte([]byte(opts), ch) >= 0 }
+		mark := out.Len()
+		var res []bcl.Block
+		var b bcl.Binding
+		var xerr error
+		class, pm := guard(30*time.Second, func() {
+			res, b, xerr = bcl.Execute(p, bcl.OptOutput(&out), bcl.OptLogger(&log), bcl.OptTrace(has('t')), bcl.OptStats(has('s')))
+		})
+		st := M{"opts": opts, "class": class, "out": hx(out.Bytes()[mark:]), "blocks": showBlocks(res), "binding": showBinding(b)}
+		if class != "ok" {
+			st["err"] = pm
+		} else if xerr != nil {
+			st["err"] = xerr.Error()
+		}
+		steps = append(steps, st)
+	}
+	return steps
+}
+
 func suiteInterp(c M) M {
-	src := unhex(str(c["src_hex"]))
+	src := unhex(str(c["src_hex"])) // a fresh buffer per case: interpret overwrites it afterwards
 	opts := str(c["opts"])
 	has := func(ch byte) bool { return bytes.IndexByte([]byte(opts), ch) >= 0 }
 	o := interpret(src, str(c["name"]), has('d'), has('t'), has('s'))
-	return M{"obs": o}
+	r := M{"obs": o}
+	if seq, ok := c["seq"].([]any); ok {
+		var ss []string
+		for _, x := range seq {
+			ss = append(ss, str(x))
+		}
+		r["seq"] = execSeq(src, str(c["name"]), ss)
+	}
+	return r
 }
